@@ -339,6 +339,24 @@ def run():
         else:
             continue
         break
+    # directed: sequences longer than ten items under visits that rewrite keys (position of an item in a rebuilt list/tuple is
+    # its position in the input, whatever key the visit returns: '10' < '2' as strings)
+    from refmodels.remap_ref import rebuild as _rebuild, iso as _iso
+    for seq in (list(range(12)), tuple(range(13)), [[i] for i in range(11)], {'k': list(range(12))}):
+        for vname, vf in (('stringify keys', lambda p, k, v: (str(k), v)), ('negate integer keys', lambda p, k, v: (-k, v) if isinstance(k, int) else True),
+                          ('constant key', lambda p, k, v: (0, v))):
+            H.ev(key=('long-seq', repr(seq)[:30], vname), nontrivial=True, part='remap', sample=dict(root=repr(seq)[:60], visit=vname))
+            try:
+                exp = _rebuild(seq, vf)
+                got = remap(seq, visit=vf)
+                r = _iso(exp, got)
+            except Exception as e:  # noqa
+                r = 'raised %s: %s' % (type(e).__name__, e)
+            if r:
+                H.fail('remap_equals_recursive_rebuild', 'remap', 'sequence of more than ten items, visit that rewrites keys (%s)' % vname,
+                       'root = %r' % (seq,), r, HDR + 'root = %r\ngot = remap(root, visit=lambda p, k, v: (str(k), v))\n'
+                       'assert got == %r, got\n' % (seq, seq if not isinstance(seq, dict) else None) if not isinstance(seq, dict) else None)
+
     # second pass, small envelope: other scalar leaves that must never be traversed (bytes incl. a zero byte and empty, a
     # multi-character string, a bool, a float) - a leaf is whatever is not a dict/list/tuple/set/frozenset
     global LEAVES
